@@ -106,6 +106,77 @@ class _Return(Exception):
         self.v = v
 
 
+class _GenExit(BaseException):
+    """unwinds the body of a generator the consumer no longer needs"""
+
+
+class _LazyGen:
+    """A generator function of the evaluated program, evaluated lazily as in Python: the body runs in a thread of its own that is handed the
+    baton at every next() and hands it back at every yield -- exactly one of the threads runs at any time, so the evaluator's state needs no
+    lock.  An endless generator (`while True: yield …`) costs only the elements asked for; an exception behind the point where the consumer
+    stops is never raised; partial consumption (islice in a loop) continues where it stopped."""
+
+    def __init__(self, ev, run):
+        import threading
+        self.ev, self.run = ev, run
+        self.state, self.msg, self.closing = "new", None, False
+        self.resume, self.ready = threading.Semaphore(0), threading.Semaphore(0)
+        ev._gens.append(self)
+
+    def __iter__(self):
+        return self
+
+    def _target(self):
+        import threading
+        self.ev._gen_by_thread[threading.get_ident()] = self
+        try:
+            try:
+                self.run()
+            except _Return:
+                pass
+            self.msg = ("done",)
+        except _GenExit:
+            self.msg = ("done",)
+        except BaseException as x:  # Raised / Undecided / internal errors surface in the consumer
+            self.msg = ("exc", x)
+        finally:
+            self.ev._gen_by_thread.pop(threading.get_ident(), None)
+            self.state = "done"
+            self.ready.release()
+
+    def __next__(self):
+        import threading
+        if self.state == "done":
+            raise StopIteration
+        if self.state == "new":
+            self.state = "running"
+            threading.Thread(target=self._target, daemon=True).start()
+        else:
+            self.resume.release()
+        self.ready.acquire()
+        m = self.msg
+        if m[0] == "yield":
+            return m[1]
+        if m[0] == "exc":
+            raise m[1]
+        raise StopIteration
+
+    def emit(self, v):
+        """called by the body (in its thread) at a yield"""
+        self.msg = ("yield", v)
+        self.ready.release()
+        self.resume.acquire()
+        if self.closing:
+            raise _GenExit()
+
+    def close(self):
+        if self.state == "running":
+            self.closing = True
+            self.resume.release()
+            self.ready.acquire()
+        self.state = "done"
+
+
 class _Break(Exception):
     pass
 
@@ -134,6 +205,8 @@ _BIN = {
     ast.BitOr: lambda a, b: a | b, ast.BitXor: lambda a, b: a ^ b, ast.Pow: lambda a, b: a ** b if (not isinstance(b, int) or abs(b) < 4096) else (_ for _ in ()).throw(OverflowError()),
 }
 import hashlib as _hl
+import threading as _th
+_th.stack_size(256 * 1024 * 1024)   # generator bodies run the recursive evaluator in threads of their own
 import hmac as _hm
 import base64 as _b64
 import binascii as _ba
@@ -229,6 +302,7 @@ class Evaluator:
         self._const_stack = set()
         self._const_cache = {}
         self._yield_stack = []
+        self._gens, self._gen_by_thread, self._depth = [], {}, 0
         self._class_objects = {}
         self.class_attrs = {}
 
@@ -236,7 +310,18 @@ class Evaluator:
     def call(self, spec, args, self_obj=None, kwargs=None):
         mod, fn = self.repo.func(spec)
         cls = spec.split(":")[1].rsplit(".", 1)[0] if "." in spec.split(":")[1] else None
-        return self._invoke(mod, fn, cls, list(args), dict(kwargs or {}), self_obj)
+        self._depth += 1
+        try:
+            r = self._invoke(mod, fn, cls, list(args), dict(kwargs or {}), self_obj)
+            if self._depth == 1 and isinstance(r, _LazyGen):
+                r = list(r)     # a generator handed to the rule: its elements
+            return r
+        finally:
+            self._depth -= 1
+            if self._depth == 0:
+                for g in self._gens:    # generators the evaluated call left unfinished
+                    g.close()
+                self._gens = []
 
     def _invoke(self, mod, fn, cls, args, kwargs, bound):
         self.calls += 1
@@ -285,20 +370,8 @@ class Evaluator:
                     raise Undecided("missing keyword-only argument")
                 env[ko.arg] = self._expr(kd, {}, mod, cls)
         if any(isinstance(x, (ast.Yield, ast.YieldFrom)) for x in ast.walk(fn)):
-            # a generator function: its values are produced eagerly into a list (the functions the rules evaluate are pure, so the order of
-            # evaluation is not observable) -- except that an exception inside it might lie behind the point where a lazy consumer stops,
-            # so a raise during eager production is not taken as a fact about the program
-            collected = []
-            self._yield_stack.append(collected)
-            try:
-                self._block(fn.body, env, mod, cls)
-            except _Return:
-                pass
-            except Raised as x_:
-                raise Undecided("generator %s raises %s somewhere in its sequence" % (fn.name, x_.name))
-            finally:
-                self._yield_stack.pop()
-            return collected
+            # a generator function: evaluated lazily (see _LazyGen)
+            return _LazyGen(self, lambda: self._block(fn.body, env, mod, cls))
         try:
             self._block(fn.body, env, mod, cls)
         except _Return as r:
@@ -854,17 +927,20 @@ class Evaluator:
                 return set(out)
             return out
         if isinstance(e, ast.Yield):
-            if not self._yield_stack:
+            g_ = self._gen_by_thread.get(__import__("threading").get_ident())
+            if g_ is None:
                 raise Undecided("yield outside a generator function")
-            self._yield_stack[-1].append(self._expr(e.value, env, mod, cls) if e.value is not None else None)
+            g_.emit(self._expr(e.value, env, mod, cls) if e.value is not None else None)
             return None
         if isinstance(e, ast.YieldFrom):
-            if not self._yield_stack:
+            g_ = self._gen_by_thread.get(__import__("threading").get_ident())
+            if g_ is None:
                 raise Undecided("yield from outside a generator function")
             v_ = self._expr(e.value, env, mod, cls)
             if not isinstance(v_, (list, tuple, range)) and not hasattr(v_, "__next__"):
                 raise Undecided("yield from %s" % type(v_).__name__)
-            self._yield_stack[-1].extend(list(v_))
+            for x_ in v_:
+                g_.emit(x_)
             return None
         if isinstance(e, ast.Lambda):
             fd = ast.FunctionDef(name="<lambda>", args=e.args, body=[ast.copy_location(ast.Return(value=e.body), e)], decorator_list=[], returns=None, type_comment=None)
